@@ -58,6 +58,11 @@ theorem avg_def (F : FArith) (vs : List Value) :
 
 /-! ### min / max: least / greatest w.r.t. `order_compare` -/
 
+/-- the source calls `min_by` / `max_by` with `order_compare` itself at all four sites (plain and DISTINCT): min/max,
+    ORDER BY and `<` share one comparator (regenerated table `Comparators`) -/
+theorem minmax_uses_order_compare : Generated.minMaxUseOrderCompare = true := by decide
+
+
 /-- on every group outside the C20 triggers `min` is a non-null element of the group that is not greater
     than any other non-null element (`Iterator::min_by`: the first such element) -/
 theorem min_is_least (E : Env) (vs : List Value) (h : ordOK E (Spec.nonNull vs) = true) (m : Value)
